@@ -53,6 +53,9 @@ def simulate_behaviours(stage, module, cfg, num, depth, seed, var='hist', timeou
     return out, gen
 
 
+last_diffs = []
+
+
 def validate_traces(stage, module, cfg, traces, shards=None, timeout=900, heap='3g', tag='t'):
     """traces: list of lists of line dicts (each line has tid, k).  Returns (fails, nlines, wall)
     where fails is a list of (tid, k, clause).  Every shard must report DONE with its line count."""
@@ -82,6 +85,8 @@ def validate_traces(stage, module, cfg, traces, shards=None, timeout=900, heap='
         if not done or done[-1][1] != counts[i]:
             raise C.MachineryError('%s: trace shard %d not fully consumed (%r of %d lines)\n%s'
                                    % (module, i, done, counts[i], '\n'.join(r.out.splitlines()[-40:])))
+        if os.environ.get('VERIF_DIFF') == '1':
+            last_diffs.extend(l for l in r.out.splitlines() if l.startswith('<<"DIFF"'))
         return [(f[1], f[2], f[3]) for f in r.tuples('FAIL')], r.wall
     t0 = time.time()
     fails = []
